@@ -27,6 +27,8 @@ package gzip
 //@   ensures nopanic
 //@   ensures fresh(result) && result.writer == nil && result.gzipWriter == nil && result.ResponseWriter == w && result.contentTypes == contentTypes
 //@
+//@ spec fun informational(code int) bool = 100 <= code && code <= 199 && code != 101
+//@
 //@ func (*GzipResponseWriter).WriteHeader
 //@   props C17
 //@   requires grw != nil && grw.ResponseWriter != nil && grw.contentTypes != nil
@@ -34,12 +36,15 @@ package gzip
 //@   ensures nopanic
 //@   // the status code is forwarded unchanged, on every call
 //@   ensures lastStatus == code && statusWrites == old(statusWrites) + 1
+//@   // an informational status (1xx other than 101) is not the response: it is passed on and decides nothing - the
+//@   // headers that count are those in place when the final status (or the first body byte) is written
+//@   ensures informational(code) ==> grw.writer == old(grw.writer) && grw.gzipWriter == old(grw.gzipWriter) && hdr1 == old(hdr1) && hdrHas == old(hdrHas)
 //@   // the decision is taken once
 //@   ensures old(grw.writer) != nil ==> grw.writer == old(grw.writer) && grw.gzipWriter == old(grw.gzipWriter) && hdr1 == old(hdr1) && hdrHas == old(hdrHas)
 //@   // compress exactly when the response is not already encoded and its content type matches
-//@   ensures old(grw.writer) == nil && old(compressable(respHeader(grw.ResponseWriter), grw.contentTypes)) ==> grw.gzipWriter != nil && typeIs(grw.writer, *gzip.Writer) && unbox(grw.writer, *gzip.Writer) == grw.gzipWriter && gzTarget[grw.gzipWriter] == grw.ResponseWriter && hget(respHeader(grw.ResponseWriter), "Content-Encoding") == "gzip" && !hhas(respHeader(grw.ResponseWriter), "Content-Length")
-//@   ensures old(grw.writer) == nil && !old(compressable(respHeader(grw.ResponseWriter), grw.contentTypes)) ==> grw.writer == grw.ResponseWriter && grw.gzipWriter == old(grw.gzipWriter) && hdr1 == old(hdr1) && hdrHas == old(hdrHas)
-//@   ensures grw.writer != nil
+//@   ensures !informational(code) && old(grw.writer) == nil && old(compressable(respHeader(grw.ResponseWriter), grw.contentTypes)) ==> grw.gzipWriter != nil && typeIs(grw.writer, *gzip.Writer) && unbox(grw.writer, *gzip.Writer) == grw.gzipWriter && gzTarget[grw.gzipWriter] == grw.ResponseWriter && hget(respHeader(grw.ResponseWriter), "Content-Encoding") == "gzip" && !hhas(respHeader(grw.ResponseWriter), "Content-Length")
+//@   ensures !informational(code) && old(grw.writer) == nil && !old(compressable(respHeader(grw.ResponseWriter), grw.contentTypes)) ==> grw.writer == grw.ResponseWriter && grw.gzipWriter == old(grw.gzipWriter) && hdr1 == old(hdr1) && hdrHas == old(hdrHas)
+//@   ensures !informational(code) ==> grw.writer != nil
 //@
 //@ func (*GzipResponseWriter).Write
 //@   props C17
